@@ -279,6 +279,26 @@ Definition handler_name (c : cmd) : string :=
   | CMpub => "MPUB" | CDpub => "DPUB" | CNop => "NOP" | CTouch => "TOUCH" | CSub => "SUB"
   | CCls => "CLS" | CAuth => "AUTH" | CUnknown => ""
   end.
+(* The order in which model/Proto.v performs each handler's tests, partial operations
+   (index, make), reads and core calls, in the vocabulary of tools/gotables/proto.go
+   (conditions of the if statements and the calls that matter, in source order).
+   proofs/ProtoTableProofs.v proves it equal to what the emitter finds in protocol_v2.go
+   now: a test that is moved, weakened ("<=0" to "<0") or dropped breaks that obligation. *)
+Definition source_order : list (string * list string) :=
+  [ ("IDENTIFY", ["state!=stateInit"; "readLen"; ">MaxBodySize"; "<=0"; "make(bodyLen)"; "ReadFull"; "Unmarshal"; "Identify"; ">0"; "<deflateLevel"])
+  ; ("AUTH", ["state!=stateInit"; "params!=1"; "readLen"; ">MaxBodySize"; "<=0"; "make(bodyLen)"; "ReadFull"; "HasAuthorizations"; "!authEnabled"; "Auth"; "HasAuthorizations"])
+  ; ("PUB", ["params<2"; "params[1]"; "!validTopic"; "readLen"; "<=0"; ">MaxMsgSize"; "make(bodyLen)"; "ReadFull"; "CheckAuth"; "GetTopic"; "Put"])
+  ; ("MPUB", ["params<2"; "params[1]"; "!validTopic"; "CheckAuth"; "GetTopic"; "readLen"; "<=0"; ">MaxBodySize"; "readMPUB"; "LimitReader"; "Put"])
+  ; ("DPUB", ["params<3"; "params[1]"; "!validTopic"; "ByteToBase10"; "params[2]"; "params[2]"; "msToDuration"; "<0"; ">MaxReqTimeout"; "readLen"; "<=0"; ">MaxMsgSize"; "make(bodyLen)"; "ReadFull"; "CheckAuth"; "GetTopic"; "Put"])
+  ; ("readMPUB", ["readLen"; "<=0"; ">maxMessages"; "makecap(numMessages)"; "for"; "readLen"; "<=0"; ">maxMessageSize"; "make(messageSize)"; "ReadFull"])
+  ; ("RDY", ["state==stateClosing"; "state!=stateSubscribed"; "params>1"; "ByteToBase10"; "params[1]"; "params[1]"; "<0"; ">MaxRdyCount"; "SetReadyCount"])
+  ; ("SUB", ["state!=stateInit"; "<=0"; "params<3"; "params[1]"; "!validTopic"; "params[2]"; "!validChannel"; "CheckAuth"; "for"; "GetTopic"; "Core"; "<2"])
+  ; ("FIN", ["state!=stateSubscribed"; "state!=stateClosing"; "params<2"; "getMessageID"; "params[1]"; "Core"])
+  ; ("REQ", ["state!=stateSubscribed"; "state!=stateClosing"; "params<3"; "getMessageID"; "params[1]"; "ByteToBase10"; "params[2]"; "params[2]"; "msToDuration"; "<0"; ">maxReqTimeout"; "Core"])
+  ; ("TOUCH", ["state!=stateSubscribed"; "state!=stateClosing"; "params<2"; "getMessageID"; "params[1]"; "Core"])
+  ; ("CLS", ["state!=stateSubscribed"; "StartClose"])
+  ; ("getMessageID", ["len!=MsgIDLength"; "p[0]"]) ].
+
 Definition all_cmds : list cmd :=
   [CIdentify; CFin; CRdy; CReq; CPub; CMpub; CDpub; CNop; CTouch; CSub; CCls; CAuth].
 Definition all_codes : list code :=
